@@ -6,7 +6,13 @@ import (
 )
 
 func (p *Pool) Sched(ctx context.Context, e Event, period time.Duration) {
+	// The loop sends from its own goroutine: Stop has to wait for it like for
+	// any other sender, otherwise a Send started by a last tick races with
+	// Stop (WaitGroup Add concurrent with Wait, send on a closed channel).
+	p.sendWg.Add(1)
 	go func() {
+		defer p.sendWg.Done()
+
 		for {
 			select {
 			case <-p.ctx.Done():
